@@ -12,6 +12,14 @@ INLINE_CONST = {r"Constant::<u32>::value$": r"util::<impl at [^>]*>::value$"}
 SESSION_SCALARS = ["next_outgoing_id", "incoming_window", "outgoing_window", "next_incoming_id", "need_flow_count", "remote_incoming_window", "remote_outgoing_window"]
 
 
+TIER = "quick"  # set by run.py; the thorough tier unrolls loops further / explores more of each coroutine
+
+
+def _mv(quick, thorough=None):
+    """loop-unrolling bound for this tier"""
+    return quick if TIER != "thorough" else (thorough if thorough is not None else quick + 2)
+
+
 def session_pre(env, tag="pre"):
     S = mir.Agg("self")
     v = {}
@@ -3496,7 +3504,7 @@ def _coroutine_states(fn):
 
 
 def _run_from_state(env, fn, k, models=None, max_visits=1, stop=r"^std::future::poll_fn::<"):
-    ex = env.executor(max_visits=max_visits)
+    ex = env.executor(max_visits=_mv(max_visits, max_visits + 1))
     ex.max_paths = 4000
     ex.stop_calls = stop
     if models:
@@ -3806,8 +3814,8 @@ def c02_settling_echo_covers_all(env):
     o.functions = [fn.name]
     o.bounds = ["one call; the id list grows by at most 3 pushes (loop unrolled 3 times), at most 3 chunk boundaries; which ids ask for an echo is arbitrary"]
     o.assumes = ["consecutive_chunk_indices returns strictly increasing interior indices (1..len-1) -- its closure is a two-line window test; Vec/slice indexing contracts of std"]
-    ex = env.executor(max_visits=4)
-    ex.max_paths = 6000
+    ex = env.executor(max_visits=_mv(4, 5))
+    ex.max_paths = 20000
     n64 = lambda v: z3.BitVecVal(v, 64)  # noqa: E731
 
     def tgt(ex_, st, v):
@@ -3914,14 +3922,20 @@ def c02_settling_echo_covers_all(env):
     D = mir.Agg("disposition")
     settled = z3.Bool("disposition.settled")
     D[env.fidx("fe2o3_amqp_types::performatives::Disposition", "settled")] = settled
+    stt, opt_d, ds_d, DS = _txn_state_agg(env, "disposition")
+    D[env.fidx("fe2o3_amqp_types::performatives::Disposition", "state")] = stt
     paths = ex.run(fn, {"_1": mir.Ref(("@self",), True), "@self": mir.Agg("session"), "_2": D})
-    hyp = ex.assumptions
+    hyp = ex.assumptions + [z3.ULE(opt_d, 1), state_valid(env, ds_d, "DeliveryState")]
+
+    def replay_progress(m):
+        return "scn settle_second_progress", (lambda js: js.get("panic") or js["resolved"] != js["n"] or not js["all_settled_by_sender"])
 
     def replay(m):
         cmds = ["scn settle_second 1", "scn settle_second 3"]
         return cmds, (lambda outs: any(js.get("panic") or not js["all_settled_by_sender"] or js["accepted"] != js["n"] for js in outs))
 
     n = 0
+    B1, B2 = _Batch(o, replay), _Batch(o, replay_progress)
     for i, p in enumerate(paths):
         if p.end != "return":
             continue
@@ -3947,10 +3961,16 @@ def c02_settling_echo_covers_all(env):
             ok = z3.And(ok, z3.Implies(here, s0 == covered))
             covered = z3.If(here, e0, covered)
             emitted = emitted + z3.If(here, n64(1), n64(0))
-        o.prove(f"path{i}:the-runs-partition-the-list", H, z3.And(ok, covered == total), replay=replay)
-        o.prove(f"path{i}:one-settling-disposition-per-run", H, emitted == n64(pushes), replay=replay)
+        B1.add(0, "the-runs-partition-the-list", H, z3.And(ok, covered == total))
+        B1.add(0, "one-settling-disposition-per-run", H, emitted == n64(pushes))
+        # a non-settled disposition that only reports progress (`received`) must leave the delivery routable:
+        # the terminal outcome for the same delivery-id is still to come
+        removes = count_calls(p, r"^HashMap::<\((fe2o3_amqp_types::definitions::)?Role, u32\), .*>::remove::<")
+        B2.add(0, "a-progress-report-does-not-forget-the-delivery", H + [opt_d == 1, ds_d == DS["Received"]], z3.BoolVal(removes == 0))
         for (dsc, okc, c) in p.obligations:
-            o.prove(f"path{i}:{dsc}", hyp + c, okc, replay=replay)
+            B1.add(0, dsc, hyp + c, okc)
+    B1.flush()
+    B2.flush()
     o.cover("paths through the echo branch", [z3.BoolVal(n > 0)])
     return [o]
 
@@ -4006,3 +4026,564 @@ def c02_receiver_runs_share_a_settle_mode(env):
 
 
 REGISTRY.setdefault("C02", []).append(c02_receiver_runs_share_a_settle_mode)
+
+
+# ======================================================================================
+# C16: a recv future that is dropped while pending must not own a delivery
+# ======================================================================================
+
+
+def _short_callee(c):
+    m = re.search(r"async fn body of (.*)\(\)\}", c)
+    if m:
+        c = m.group(1)
+    for _ in range(4):
+        c = re.sub(r"<[^<>]*>", "", c)
+    return c[-60:]
+
+
+def c16_recv_holds_nothing_across_await(env):
+    out = []
+    sites = [
+        ("on_complete_transfer", r"^receiver::<impl at [^>]*>::on_complete_transfer::\{closure#0\}$", "the final frame of a delivery (decoded into the Delivery that recv returns)"),
+        ("on_resuming_transfer", r"^receiver::<impl at [^>]*>::on_resuming_transfer::\{closure#0\}$", "the final frame of a resumed delivery"),
+    ]
+    for short, pat, what in sites:
+        o = Obligation(f"c16_recv_{short}_does_not_suspend_holding_the_delivery", "C16")
+        o.collect_all = True
+        o.desc = f"ReceiverInner::{short}: it is entered owning {what}, taken out of the link's incoming channel; the Delivery it builds lives only in this future until it is returned. If the future suspends (an inner await is pending) and the application drops the recv future -- select!, timeout -- the delivery is gone although the link has counted it: so on no path may this function suspend (Poll::Pending) -- unless it first put what it holds back into the receiver's own state"
+        fn = env.fn(pat)
+        o.functions = [fn.name]
+        states = _coroutine_states(fn)
+        o.bounds = [f"coroutine body from every resume state {states} through one poll; every inner future ready or pending; every value of auto_accept, of the frame and of the receiver's state"]
+        o.assumes = ["dropping a future drops its locals (Rust semantics); tokio mpsc Sender::send is pending when the channel is full"]
+
+        def replay(m):
+            return "scn cancel_recv_auto_accept", (lambda js: js.get("panic") or js["lost"] > 0)
+
+        n = 0
+        seen_q = set()
+        for k in states:
+            ex, paths = _run_from_state(env, fn, k, max_visits=2, stop=None)
+            for i, p in enumerate(paths):
+                if p.end != "return" or not isinstance(p.ret, mir.Agg) or "#d" not in p.ret:
+                    continue
+                n += 1
+                polls = [c for c in p.calls if re.search(r"Future>::poll$", c[0])]
+                H = ex.assumptions + p.cond + [p.ret["#d"] == 1]
+                s = z3.Solver()
+                s.add(*H)
+                if s.check() != z3.sat:
+                    continue
+                awaited = _short_callee(polls[-1][0]) if polls else "?"
+                if re.search(r"ReceiverInner::(on_complete_transfer|on_resuming_transfer)$", awaited):
+                    # the frame was moved into that future: its own obligation speaks for it
+                    continue
+                # what was written back into the receiver before suspending? (nothing is, today)
+                qn = f"suspends-while-holding-the-delivery:awaiting {awaited}"
+                if (k, qn) in seen_q:
+                    continue
+                seen_q.add((k, qn))
+                o.prove(f"state{k}:{qn}", H, z3.BoolVal(False), replay=replay)
+        o.cover("paths", [z3.BoolVal(n > 0)])
+        out.append(o)
+    return out
+
+
+REGISTRY.setdefault("C16", []).append(c16_recv_holds_nothing_across_await)
+
+
+# ---- C17: the heartbeat timer is armed with (at most) the peer's idle-time-out ---------------------
+
+
+def c17_heartbeat_period(env):
+    o = Obligation("c17_heartbeat_period_is_the_peers_idle_timeout", "C17")
+    o.desc = "ConnectionEngine::open_inner, on the peer's open: when the peer advertises a non-zero idle-time-out T the heartbeat timer is armed (HeartBeat::new) exactly once with a period that is non-zero and not longer than T milliseconds; when it advertises none (or 0) no timer is armed (a zero period would panic in tokio::time::interval)"
+    fn = env.fn(r"^connection::engine::<impl at [^>]*>::open_inner::\{closure#0\}$")
+    o.functions = [fn.name]
+    states = _coroutine_states(fn)
+    o.bounds = [f"coroutine body from every resume state {states} through one poll; the frame read from the transport is an open with every 32-bit idle-time-out (present or absent); every other await ready or pending"]
+    o.assumes = ["Duration::from_millis(x) is x milliseconds; each tick of the timer runs on_heartbeat (c17_heartbeat_tick)"]
+    FB = env.enums["FrameBody"]
+    f_body = env.fidx("Frame", "body")
+    f_ito = env.fidx("Open", "idle_time_out")
+    pat_poll = r"^<(futures_util::stream::)?Next<.*> as (futures_util::|std::future::)?Future>::poll$"
+
+    def replay(m):
+        return "hb_gap", (lambda js: js.get("panic") or js["max_gap_ms"] > js["idle_ms"] + js["tolerance_ms"])
+
+    n = 0
+    for k0 in states:
+        ex = env.executor(max_visits=2)
+        ex.max_paths = 3000
+        has = z3.BitVec("peer.idle_time_out.is_some", 64)
+        T = z3.BitVec("peer.idle_time_out", 32)
+        pd, od, rd = z3.BitVec("next.poll", 64), z3.BitVec("next.option", 64), z3.BitVec("next.result", 64)
+        polled = []
+
+        def m_poll(ex_, st, callee, args, argvals, dty):
+            polled.append(1)
+            ito = mir.Agg("idle_time_out")
+            ito["#d"] = has
+            sm = mir.Agg("Some")
+            sm[0] = T
+            ito[("as", "Some")] = sm
+            op = mir.Agg("Open")
+            op[f_ito] = ito
+            body = mir.Agg("FrameBody")
+            body["#d"] = z3.BitVecVal(FB["Open"], 64)
+            v = mir.Agg("Open")
+            v[0] = op
+            body[("as", "Open")] = v
+            frame = mir.Agg("Frame")
+            frame[f_body] = body
+            res = mir.Agg("Result")
+            res["#d"] = rd
+            okv = mir.Agg("Ok")
+            okv[0] = frame
+            res[("as", "Ok")] = okv
+            opt = mir.Agg("Option")
+            opt["#d"] = od
+            s2 = mir.Agg("Some")
+            s2[0] = res
+            opt[("as", "Some")] = s2
+            poll = mir.Agg("Poll")
+            poll["#d"] = pd
+            rv = mir.Agg("Ready")
+            rv[0] = opt
+            poll[("as", "Ready")] = rv
+            return poll
+
+        def m_millis(ex_, st, callee, args, argvals, dty):
+            d = mir.Agg("Duration")
+            d["@ms"] = argvals[0]
+            return d
+
+        ex.models = [(pat_poll, m_poll), (r"^(std::time::)?Duration::from_millis$", m_millis)]
+        cor = mir.Agg("coroutine")
+        cor["#d"] = z3.BitVecVal(k0, 64)
+        cor[0] = mir.Ref(("@engine",), True)
+        pin = mir.Agg("pin")
+        pin[0] = mir.Ref(("@cor",), True)
+        paths = ex.run(fn, {"_1": pin, "@cor": cor, "@engine": mir.Agg("engine")})
+        hyp = ex.assumptions + [z3.ULE(has, 1), z3.ULE(pd, 1), z3.ULE(od, 1), z3.ULE(rd, 1)]
+        for i, p in enumerate(paths):
+            if p.end != "return" or not isinstance(p.ret, mir.Agg):
+                continue
+            if not [c for c in p.calls if re.search(pat_poll, c[0])]:
+                continue
+            rdy, is_ok = poll_ready_result(p.ret)
+            if is_ok is None:
+                continue
+            H = hyp + p.cond + [pd == 0, od == 1, rd == 0, rdy, is_ok]
+            s = z3.Solver()
+            s.add(*H)
+            if s.check() != z3.sat:
+                continue
+            n += 1
+            news = [c for c in p.calls if re.search(r"(^|::)HeartBeat::new$", c[0])]
+            armed = z3.And(has == 1, T != 0)
+            o.prove(f"state{k0}.path{i}:armed-exactly-when-the-peer-advertises-a-timeout", H, z3.BoolVal(len(news) == 1) == armed if len(news) <= 1 else z3.BoolVal(False), replay=replay)
+            for c in news:
+                d = c[1][0] if c[1] else None
+                ms = d.get("@ms") if isinstance(d, mir.Agg) else None
+                if ms is None or not z3.is_bv(ms):
+                    o.prove(f"state{k0}.path{i}:the-period-comes-from-the-peers-open", H, z3.BoolVal(False), replay=replay)
+                    continue
+                Tz = z3.ZeroExt(ms.size() - 32, T) if ms.size() > 32 else T
+                o.prove(f"state{k0}.path{i}:the-period-is-non-zero-and-not-longer-than-the-peers-timeout", H, z3.And(ms != 0, z3.ULE(ms, Tz)), replay=replay)
+    o.cover("paths on which the peer's open is handled", [z3.BoolVal(n > 0)])
+    return [o]
+
+
+REGISTRY.setdefault("C17", []).append(c17_heartbeat_period)
+
+
+# ---- C18: every post under a live transaction is buffered, settled or not ---------------------------
+
+
+def c18_post_is_buffered(env):
+    o = Obligation("c18_every_post_is_buffered_for_the_commit", "C18")
+    o.desc = "ResourceTransaction::on_incoming_post: the posted transfer is appended to the transaction's work list exactly once on every path -- whether the controller sent it settled (no presumptive-outcome reply is due) or unsettled (a reply is due) -- so that a commit replays all posts, in posting order"
+    fn = env.fn(r"^(transaction::)?manager::<impl at [^>]*>::on_incoming_post$")
+    o.functions = [fn.name]
+    o.bounds = ["one call; settled absent / false / true; delivery-id present or absent"]
+    o.assumes = ["Vec::push appends (std); commit replays the list in order (outside)"]
+    ex = env.executor(max_visits=3)
+    T = mir.Agg("transfer")
+    st_ = mir.Agg("settled")
+    sd = z3.BitVec("transfer.settled.is_some", 64)
+    sv = z3.Bool("transfer.settled")
+    st_["#d"] = sd
+    sm = mir.Agg("Some")
+    sm[0] = sv
+    st_[("as", "Some")] = sm
+    T[env.fidx("Transfer", "settled")] = st_
+    paths = ex.run(fn, {"_1": mir.Ref(("@txn",), True), "@txn": mir.Agg("txn"), "_2": mir.Agg("txn_id"), "_3": T, "_4": mir.Agg("payload")})
+    hyp = ex.assumptions + [z3.ULE(sd, 1)]
+
+    def replay(m):
+        return "scn txn_settled_posts", (lambda js: js.get("panic") or js["delivered"] != ["m1", "m2", "m3", "m4"] or js["visible_before_commit"])
+
+    n = 0
+    for i, p in enumerate(paths):
+        if p.end != "return":
+            continue
+        n += 1
+        pushes = count_calls(p, r"^Vec::<(transaction::manager::)?TxnWorkFrame>::push$")
+        o.prove(f"path{i}:the-post-is-buffered-exactly-once", hyp + p.cond, z3.BoolVal(pushes == 1), replay=replay)
+        if isinstance(p.ret, mir.Agg) and "#d" in p.ret:
+            o.prove(f"path{i}:no-reply-for-a-settled-post", hyp + p.cond + [sd == 1, sv], p.ret["#d"] == 0, replay=replay)
+    o.cover("paths", [z3.BoolVal(n > 1)])
+    return [o]
+
+
+REGISTRY.setdefault("C18", []).append(c18_post_is_buffered)
+
+
+# ---- C12: in DISCARDING every frame but the peer's close is dropped, wherever on_incoming is called from
+
+
+def c12_discarding_drops_frames(env):
+    o = Obligation("c12_discarding_ignores_everything_but_the_close", "C12")
+    o.desc = "ConnectionEngine::on_incoming (reached from the event loop AND from the wait for the peer's close): while the connection is DISCARDING (we closed with an error) a frame that is not a close is dropped -- not dispatched to the connection or a session, no error, the engine keeps waiting"
+    fn = env.fn(r"^connection::engine::<impl at [^>]*>::on_incoming::\{closure#0\}$")
+    o.functions = [fn.name]
+    o.bounds = ["coroutine body from its initial state through one poll; every frame body but close; state DISCARDING"]
+    o.assumes = ["Connection::local_state reports the state (C12's transition obligations)"]
+    FB = env.enums["FrameBody"]
+    CS = env.enums["ConnectionState"]
+    RUN = env.enums["Running"]
+    ex = env.executor(max_visits=3)
+    frame = mir.Agg("frame")
+    body = mir.Agg("body")
+    bd = z3.BitVec("frame.body", 64)
+    body["#d"] = bd
+    frame[env.fidx("Frame", "body")] = body
+    state_d = z3.BitVec("connection.local_state", 64)
+
+    def state_model(ex_, st, callee, args, argvals, dty):
+        stt = st.locals.setdefault("@connstate", mir.Agg("ConnectionState"))
+        if "#d" not in stt:
+            stt["#d"] = state_d
+        return mir.Ref(("@connstate",), False)
+
+    ex.models = [(r"Connection>::local_state$", state_model)]
+    pin, cor = coroutine_start(env, "@engine", {1: frame})
+    paths = ex.run(fn, {"_1": pin, "@cor": cor, "@engine": mir.Agg("engine")})
+    hyp = ex.assumptions + [state_valid(env, state_d, "ConnectionState"), z3.Or(*[bd == v for v in FB.values()]), state_d == CS["Discarding"], bd != FB["Close"]]
+
+    def replay(m):
+        return "scn discarding_ignores", (lambda js: js.get("panic") or not js["waited_for_peer_close"] or js["handle"] != "not_found")
+
+    dispatch = r"Connection>::on_incoming_(open|begin|end|close)$|::forward_to_session::|Connection>::session_tx_by_incoming_channel$|mpsc::(bounded::)?Sender::<.*>::send$"
+    n = 0
+    for i, p in enumerate(paths):
+        if p.end != "return":
+            continue
+        H = hyp + p.cond
+        s = z3.Solver()
+        s.add(*H)
+        if s.check() != z3.sat:
+            continue
+        n += 1
+        o.prove(f"path{i}:nothing-is-dispatched", H, z3.BoolVal(count_calls(p, dispatch) == 0), replay=replay)
+        rdy, is_ok = poll_ready_result(p.ret)
+        if is_ok is not None:
+            o.prove(f"path{i}:dropped-without-an-error-in-the-same-step", H, z3.And(rdy, is_ok), replay=replay)
+            run = p.ret[("as", "Ready")][0].get(("as", "Ok"))
+            rd = run[0].get("#d") if isinstance(run, mir.Agg) and isinstance(run.get(0), mir.Agg) else None
+            if rd is not None:
+                o.prove(f"path{i}:the-engine-keeps-waiting", H + [rdy, is_ok], rd == RUN["Continue"], replay=replay)
+    o.cover("paths in DISCARDING", [z3.BoolVal(n > 0)])
+    return [o]
+
+
+REGISTRY.setdefault("C12", []).append(c12_discarding_drops_frames)
+
+
+# ---- C13: a peer's detach taken by recv is answered before recv returns -----------------------------
+
+
+def c13_recv_answers_detach(env):
+    o = Obligation("c13_recv_answers_the_peers_detach", "C13")
+    o.desc = "ReceiverInner::recv_inner on a detach frame from the peer: the answering detach (closed as the peer's) is sent before the operation returns -- also when the peer's detach carries an error (which the caller then gets)"
+    fn = env.fn(r"^receiver::<impl at [^>]*>::recv_inner::\{closure#0\}$")
+    o.functions = [fn.name]
+    states = _coroutine_states(fn)
+    o.bounds = [f"coroutine body from every resume state {states} through one poll; the frame taken from the link's channel is a detach with closed / error symbolic; the send ready or pending"]
+    o.assumes = ["Link::send_detach writes the detach (C13's send_detach obligation)"]
+    LF = env.enums["LinkFrame"]
+    pat_poll = r"mpsc::(bounded::)?Receiver<.*LinkFrame>::recv\(\)\} as (futures_util::|std::future::)?Future>::poll$"
+
+    def replay(m):
+        cmds = ["scn peer_detaches_receiver 1", "scn peer_detaches_receiver 0"]
+        return cmds, (lambda outs: any(js.get("panic") or not js["answered_while_handle_alive"] for js in outs))
+
+    n = 0
+    for k0 in states:
+        ex = env.executor(max_visits=2)
+        ex.max_paths = 3000
+        pd, od = z3.BitVec("recv.poll", 64), z3.BitVec("recv.option", 64)
+
+        def m_poll(ex_, st, callee, args, argvals, dty):
+            fr = mir.Agg("LinkFrame")
+            fr["#d"] = z3.BitVecVal(LF["Detach"], 64)
+            v = mir.Agg("Detach")
+            v[0] = mir.Agg("detach")
+            fr[("as", "Detach")] = v
+            opt = mir.Agg("Option")
+            opt["#d"] = od
+            sm = mir.Agg("Some")
+            sm[0] = fr
+            opt[("as", "Some")] = sm
+            poll = mir.Agg("Poll")
+            poll["#d"] = pd
+            rv = mir.Agg("Ready")
+            rv[0] = opt
+            poll[("as", "Ready")] = rv
+            return poll
+
+        ex.models = [(pat_poll, m_poll)]
+        cor = mir.Agg("coroutine")
+        cor["#d"] = z3.BitVecVal(k0, 64)
+        cor[0] = mir.Ref(("@self",), True)
+        pin = mir.Agg("pin")
+        pin[0] = mir.Ref(("@cor",), True)
+        paths = ex.run(fn, {"_1": pin, "@cor": cor, "@self": mir.Agg("receiver")})
+        hyp = ex.assumptions + [z3.ULE(pd, 1), z3.ULE(od, 1)]
+        for i, p in enumerate(paths):
+            if p.end != "return" or not isinstance(p.ret, mir.Agg):
+                continue
+            if not [c for c in p.calls if re.search(pat_poll, c[0])]:
+                continue
+            H = hyp + p.cond + [pd == 0, od == 1, p.ret["#d"] == 0]
+            s = z3.Solver()
+            s.add(*H)
+            if s.check() != z3.sat:
+                continue
+            n += 1
+            sends = count_calls(p, r"::send_detach(::<.*>)?$")
+            o.prove(f"state{k0}.path{i}:recv-does-not-return-before-the-detach-is-answered", H, z3.BoolVal(sends >= 1), replay=replay)
+    o.cover("paths on which a detach is taken", [z3.BoolVal(n > 0)])
+    return [o]
+
+
+REGISTRY.setdefault("C13", []).append(c13_recv_answers_detach)
+
+
+# ---- C14: end of stream while the peer still owes frames is reported as an error -------------------
+
+
+def c14_eof_is_an_error(env):
+    o = Obligation("c14_transport_end_before_the_peers_close_is_an_error", "C14")
+    o.desc = "ConnectionEngine::event_loop, the incoming-frame arm of the select: when the transport ends (the stream yields None) while the peer still owes us frames -- in particular in CLOSE_SENT, where our close is out and the peer's has not arrived -- the step is an error that goes through on_error (and from there into the outcome the ConnectionHandle reports); only in states where nothing more is expected or the error outcome is already recorded (CLOSE_PIPE, DISCARDING, END) may the engine stop without one"
+    fn = env.fn(r"^connection::engine::<impl at [^>]*>::event_loop::\{closure#0\}$")
+    o.functions = [fn.name]
+    states = _coroutine_states(fn)
+    o.bounds = [f"coroutine body from every resume state {states} through one poll in which the select! resolves to the incoming-frame arm with None, up to the start of the next loop iteration; every connection state"]
+    o.assumes = ["tokio::select! hands the arm the value its future produced; Connection::local_state reports the state"]
+    CS = env.enums["ConnectionState"]
+    pat_poll = r"^<(std::future::)?PollFn<.*select\.rs.*> as (futures_util::|std::future::)?Future>::poll$"
+    owed = ["Opened", "CloseSent", "CloseReceived", "OpenSent", "OpenReceived"]
+
+    def replay(m):
+        return "scn cut_after_our_close", (lambda js: js.get("panic") or js["close_result"] == "ok")
+
+    n = 0
+    B = _Batch(o, replay)
+    for k0 in states:
+        ex = env.executor(max_visits=1)
+        ex.max_paths = 4000
+        ex.stop_calls = r"^std::future::poll_fn::<"
+        state_d = z3.BitVec("connection.local_state", 64)
+        pd = z3.BitVec("select.poll", 64)
+        polled = []
+
+        def m_poll(ex_, st, callee, args, argvals, dty, pd=pd, polled=polled):
+            polled.append(1)
+            none = mir.Agg("Option<Result<Frame>>")
+            none["#d"] = z3.BitVecVal(0, 64)
+            out = mir.Agg("Out")
+            out["#d"] = z3.BitVecVal(1, 64)
+            v = mir.Agg("_1")
+            v[0] = none
+            out[("as", "_1")] = v
+            poll = mir.Agg("Poll")
+            poll["#d"] = pd
+            rv = mir.Agg("Ready")
+            rv[0] = out
+            poll[("as", "Ready")] = rv
+            return poll
+
+        def state_model(ex_, st, callee, args, argvals, dty, state_d=state_d):
+            stt = st.locals.setdefault("@connstate", mir.Agg("ConnectionState"))
+            if "#d" not in stt:
+                stt["#d"] = state_d
+            return mir.Ref(("@connstate",), False)
+
+        ex.models = [(pat_poll, m_poll), (r"Connection>::local_state$", state_model)]
+        cor = mir.Agg("coroutine")
+        cor["#d"] = z3.BitVecVal(k0, 64)
+        pin = mir.Agg("pin")
+        pin[0] = mir.Ref(("@cor",), True)
+        paths = ex.run(fn, {"_1": pin, "@cor": cor})
+        hyp = ex.assumptions + [z3.ULE(pd, 1), state_valid(env, state_d, "ConnectionState")]
+        for i, p in enumerate(paths):
+            if not [c for c in p.calls if re.search(pat_poll, c[0])]:
+                continue
+            H = hyp + p.cond + [pd == 0, z3.Or(*[state_d == CS[s_] for s_ in owed])]
+            s = z3.Solver()
+            s.add(*H)
+            if s.check() != z3.sat:
+                continue
+            n += 1
+            errs = count_calls(p, r"^ConnectionEngine::<.*>::on_error$")
+            B.add(k0, "end-of-stream-while-frames-are-owed-goes-through-the-error-handler", H, z3.BoolVal(errs >= 1))
+    B.flush()
+    o.cover("paths on which the stream ends", [z3.BoolVal(n > 0)])
+    return [o]
+
+
+REGISTRY.setdefault("C14", []).append(c14_eof_is_an_error)
+
+
+# ---- C07: the hold-back queue is drained as far as the reopened window allows -----------------------
+
+
+def c07_drain_completes(env):
+    o = Obligation("c07_drain_stops_only_at_a_closed_window_or_an_empty_queue", "C07")
+    o.desc = "Session::prepare_session_frames_from_buffered_transfers (run when the peer's flow reopens its window): it returns only when the remote-incoming-window is used up or the hold-back queue is empty -- whatever frames the caller had already put into the output buffer (the echoed link flow), every held-back transfer the window has room for is sent now, none is left waiting for another flow"
+    fn = env.fn(r"^session::<impl at [^>]*>::prepare_session_frames_from_buffered_transfers$")
+    o.functions = [fn.name]
+    o.bounds = ["loop unrolled up to 3 times (queues of <= 3 entries are drained completely; longer ones are cut by the unrolling bound); every 32-bit window; every length of the output buffer passed in"]
+    o.assumes = ["the send step shrinks the window by exactly one (c07_send_step); VecDeque::pop_front is Some exactly when the queue is not empty"]
+    ex = env.executor(max_visits=_mv(4, 7))
+    S, v = session_pre(env)
+    riw_idx = env.fidx("Session", "remote_incoming_window")
+    buf_idx = env.fidx("Session", "remote_incoming_window_exhausted_buffer")
+    q0 = z3.BitVec("queue.len", 64)
+    v0 = z3.BitVec("output_buffer.len", 64)
+    Q = mir.Agg("queue")
+    Q["@len"] = q0
+    S[buf_idx] = Q
+    OUT = mir.Agg("output")
+    OUT["@len"] = v0
+
+    def tgt(ex_, st, x):
+        k = 0
+        while isinstance(x, mir.Ref) and k < 4:
+            cont, key = ex_.resolve(st, list(x.path))
+            x = cont.get(key)
+            k += 1
+        return x
+
+    def m_pop(ex_, st, callee, args, argvals, dty):
+        q = tgt(ex_, st, argvals[0])
+        r = mir.Agg("Option")
+        r["#d"] = z3.If(q["@len"] != 0, z3.BitVecVal(1, 64), z3.BitVecVal(0, 64))
+        sm = mir.Agg("Some")
+        t = mir.Agg("(handle, transfer, payload)")
+        t[0], t[1], t[2] = mir.Agg("handle"), mir.Agg("transfer"), mir.Agg("payload")
+        sm[0] = t
+        r[("as", "Some")] = sm
+        q["@len"] = z3.If(q["@len"] != 0, q["@len"] - 1, q["@len"])
+        return r
+
+    def m_qlen(ex_, st, callee, args, argvals, dty):
+        return tgt(ex_, st, argvals[0])["@len"]
+
+    def m_push(ex_, st, callee, args, argvals, dty):
+        o_ = tgt(ex_, st, argvals[0])
+        if isinstance(o_, mir.Agg) and "@len" in o_:
+            o_["@len"] = o_["@len"] + 1
+        return mir.Agg("()")
+
+    def m_vlen(ex_, st, callee, args, argvals, dty):
+        o_ = tgt(ex_, st, argvals[0])
+        return o_["@len"] if isinstance(o_, mir.Agg) and "@len" in o_ else None
+
+    def m_noop(ex_, st, callee, args, argvals, dty):
+        return mir.Agg("()")
+
+    def m_step(ex_, st, callee, args, argvals, dty):
+        s_ = tgt(ex_, st, argvals[0])
+        s_[riw_idx] = s_[riw_idx] - 1
+        r = mir.Agg("Result")
+        r["#d"] = z3.BitVec(f"send_step.is_err#{ex_.ctx.n}", 64)
+        ex_.ctx.n += 1
+        ex_.assumptions.append(z3.ULE(r["#d"], 1))
+        okv = mir.Agg("Ok")
+        okv[0] = mir.Agg("frame")
+        r[("as", "Ok")] = okv
+        return r
+
+    ex.models = [
+        (r"^VecDeque::<.*>::pop_front$", m_pop),
+        (r"^VecDeque::<.*>::len$", m_qlen),
+        (r"^Vec::<(session::frame::)?SessionFrame>::push$", m_push),
+        (r"^Vec::<(session::frame::)?SessionFrame>::len$", m_vlen),
+        (r"^Vec::<(session::frame::)?SessionFrame>::reserve(_exact)?$", m_noop),
+        (r"on_outgoing_transfer_inner$", m_step),
+    ]
+    paths = ex.run(fn, {"_1": mir.Ref(("@self",), True), "@self": S, "_2": OUT})
+    hyp = ex.assumptions
+
+    def replay(m):
+        return "scn window_reopen_with_echo", (lambda js: js.get("panic") or js["transfers_seen"] != 3)
+
+    n = 0
+    for i, p in enumerate(paths):
+        if p.end != "return" or not isinstance(p.ret, mir.Agg) or "#d" not in p.ret:
+            continue
+        cur = p.locals["@self"]
+        q = cur.get(buf_idx)
+        if not (isinstance(q, mir.Agg) and "@len" in q):
+            raise mir.Unsupported("hold-back queue lost")
+        n += 1
+        o.prove(f"path{i}:stops-only-at-a-closed-window-or-an-empty-queue", hyp + p.cond + [p.ret["#d"] == 0], z3.Or(cur[riw_idx] == 0, q["@len"] == 0), replay=replay)
+    o.cover("returning paths", [z3.BoolVal(n > 1)])
+    return [o]
+
+
+REGISTRY.setdefault("C07", []).append(c07_drain_completes)
+
+
+def c16_recv_keeps_partial_delivery(env):
+    o = Obligation("c16_recv_resumes_the_partial_delivery_it_holds", "C16")
+    o.desc = "ReceiverInner::recv: the frames of a multi-frame delivery that earlier (possibly dropped) recv calls have already taken from the link's channel live in self.incomplete_transfer; a new recv must continue from exactly that state -- at the moment it starts to take the next frame (recv_inner) the partial delivery is what it was on entry"
+    fn = env.fn(r"^receiver::<impl at [^>]*>::recv::\{closure#0\}$", sig=r"ReceiverInner<")
+    o.functions = [fn.name]
+    o.bounds = ["coroutine body from its initial state up to its first use of recv_inner; a partial delivery buffered or not"]
+    o.assumes = ["dropping a recv future leaves the receiver's fields as they are (Rust semantics)"]
+    ex = env.executor(max_visits=2)
+    R = mir.Agg("receiver")
+    f_inc = env.fidx("ReceiverInner", "incomplete_transfer")
+    inc = mir.Agg("incomplete_transfer")
+    inc_d = z3.BitVec("pre.incomplete_transfer.is_some", 64)
+    inc["#d"] = inc_d
+    R[f_inc] = inc
+    snaps = []
+
+    def hook(ex_, st, callee, depth):
+        if re.search(r"ReceiverInner::<.*>::recv_inner(::<.*>)?$", callee):
+            cur = st.locals.get("@self")
+            now = cur.get(f_inc) if isinstance(cur, mir.Agg) else None
+            snaps.append((list(st.cond), now.get("#d") if isinstance(now, mir.Agg) else None, now is inc))
+
+    ex.on_call = hook
+    pin, cor = coroutine_start(env, "@self", {})
+    ex.run(fn, {"_1": pin, "@cor": cor, "@self": R})
+    hyp = ex.assumptions + [z3.ULE(inc_d, 1)]
+
+    def replay(m):
+        return "scn cancel_recv_multi_frame", (lambda js: js.get("panic") or js["lost"] > 0 or js["errors"] > 0)
+
+    # (only the first use: after recv_inner has run, it has legitimately updated the partial delivery)
+    for j, (cond, d, same) in enumerate(snaps[:1]):
+        o.prove(f"call{j}:the-partial-delivery-is-untouched-when-the-next-frame-is-taken", hyp + cond, (d == inc_d) if d is not None else z3.BoolVal(False), replay=replay)
+    o.cover("recv reaches recv_inner", [z3.BoolVal(len(snaps) > 0)])
+    return [o]
+
+
+REGISTRY.setdefault("C16", []).append(c16_recv_keeps_partial_delivery)
